@@ -169,6 +169,7 @@ type Val struct {
 	K     *big.Int // untyped integer constant (spec expressions only)
 	L     []Term
 	Addr  *Addr // for pointer values with a structural address
+	Nil   Term  // for structural pointers: condition under which the pointer is nil ("" = never)
 	Tuple []Val // multi-value results
 	Fn    *ssa.Function
 }
@@ -411,9 +412,27 @@ func (c *Ctx) iteVal(cond Term, a, b Val) Val {
 	for i := range a.L {
 		out.L = append(out.L, c.ite(cond, a.L[i], b.L[i]))
 	}
-	if a.Addr != nil && b.Addr != nil && addrEqual(a.Addr, b.Addr) {
+	nilOf := func(v Val) Term {
+		if v.Nil.S == "" {
+			return tFalse
+		}
+		return v.Nil
+	}
+	isNilConst := func(v Val) bool { return v.Addr == nil && len(v.L) == 1 && v.L[0].S == "nil_ref" }
+	switch {
+	case a.Addr != nil && b.Addr != nil && addrEqual(a.Addr, b.Addr):
 		out.Addr = a.Addr
-	} else if a.Addr != nil || b.Addr != nil {
+		if a.Nil.S != "" || b.Nil.S != "" {
+			out.Nil = c.ite(cond, nilOf(a), nilOf(b))
+		}
+	case a.Addr != nil && isNilConst(b):
+		// structural pointer or nil: keep the address, track nil-ness as a condition
+		out.Addr = a.Addr
+		out.Nil = c.ite(cond, nilOf(a), tTrue)
+	case b.Addr != nil && isNilConst(a):
+		out.Addr = b.Addr
+		out.Nil = c.ite(cond, tTrue, nilOf(b))
+	case a.Addr != nil || b.Addr != nil:
 		// differing structural addresses cannot be merged unless both are plain refs
 		if !(plainRef(a) && plainRef(b)) {
 			out.Addr = &Addr{Kind: -1}
@@ -452,7 +471,7 @@ func valEqual(a, b Val) bool {
 			return false
 		}
 	}
-	if (a.Addr == nil) != (b.Addr == nil) {
+	if (a.Addr == nil) != (b.Addr == nil) || a.Nil.S != b.Nil.S {
 		return false
 	}
 	if a.Addr != nil && !addrEqual(a.Addr, b.Addr) {
